@@ -113,6 +113,9 @@ Proof.
   - etransitivity; eassumption.
   - apply IH. assumption.
 Qed.
+Lemma veq_map_Qred v : veq (map Qred v) v.
+Proof. induction v as [|x v IH]; cbn [map]; constructor; [apply Qred_correct | exact IH]. Qed.
+
 Lemma veq_length a b : veq a b -> length a = length b.
 Proof. induction 1; cbn [length]; congruence. Qed.
 
